@@ -294,6 +294,14 @@ def gen_field(rng, gf, count, w=64):
                 out.append("fbu %s %d %x" % (v, rng.below(2), uni))
         if others:
             out.append("fbu %s %d %x" % (others[d % len(others)], rng.below(2), uni))
+    # the degrees whose difference to m (or to 0) is a whole number of digits, and their neighbours, go to EVERY inversion variant in the quick
+    # tier too, as monomial and as uniform element (a step without bit shift is reached only there)
+    crit = sorted({d for i in range(1, m // w + 1) for d in (m - w * i - 1, m - w * i, m - w * i + 1, w * i - 1, w * i, w * i + 1) if 0 <= d < m})
+    if count <= 5000:
+        for d in crit:
+            for v in invs:
+                out.append("fbu %s %d %x" % (v, rng.below(2), 1 << d))
+                out.append("fbu %s %d %x" % (v, rng.below(2), (1 << d) | rng.bits(d) if d > 0 else 1))
     # Euclidean inversions (modelled: binar / almos / exgcd): boundary operands of the halving loops, of the digit-wise comparison and of the
     # degree differences: 1, z, z + 1, f - z^m, all ones, z^(w k) and its neighbours, top-digit patterns, long runs of zero low coefficients
     fl = gf.f ^ (1 << m)
